@@ -246,6 +246,10 @@ def notFoEq : Tm → Bool
   | mkEq _ _ => false
   | _ => true
 
+def notDisj : Tm → Bool
+  | mkOr _ _ => false
+  | _ => true
+
 def isConnective : Tm → Bool
   | mkNot _ => true
   | mkAnd _ _ => true
